@@ -13,10 +13,15 @@ def run(tier, seed):
     progs = []
     for i in range(n):
         nonlin = i % 3 == 0
-        p = g.program({"nonlinear": nonlin, "requests": False,
-                       "nsteps": g.rng.choice([1, 2]) if nonlin else g.rng.choice([2, 4, 6, 8]),
-                       "h": g.rng.choice(["1", "1/2", "1/4", "3/8", "2", "3/2"]),
-                       "t0": g.rng.choice(["0", "1", "-2", "5/2", "10"])})
+        grid = {"nsteps": g.rng.choice([1, 2]) if nonlin else g.rng.choice([2, 4, 6, 8]),
+                "h": g.rng.choice(["1", "1/2", "1/4", "3/8", "2", "3/2"]),
+                "t0": g.rng.choice(["0", "1", "-2", "5/2", "10"])}
+        if i % 4 == 3:
+            # decimal timesteps (0.9, 0.45, 0.3 ...): grids the library accepts although start, end and step are not
+            # exactly representable
+            t0_, h_, n_ = decimal_grid(g.rng, 2 if nonlin else 9)
+            grid = {"nsteps": n_, "h": h_, "t0": t0_}
+        p = g.program(dict({"nonlinear": nonlin, "requests": False}, **grid))
         pv = g.params_values(small=True)
         obs = [{"obs": "struct"}]
         if (not p["nonlinear"]) or nsteps(p) <= 2:
@@ -43,7 +48,7 @@ def run(tier, seed):
                                                  for o in (a.get("obs") or [])):
             nontrivial.add(checklib.signature(p))
     return {"programs": progs, "explore": ex, "distinct_nontrivial": len(nontrivial),
-            "rule": "build programs with timesteps {1, 1/2, 1/4, 3/8, 2, 3/2} and start times {0, 1, -2, 5/2, 10}: euler and rk4 "
+            "rule": "build programs with timesteps {1, 1/2, 1/4, 3/8, 2, 3/2} and start times {0, 1, -2, 5/2, 10}, a quarter with decimal timesteps (0.9, 0.45, 0.3, 0.01 ...) whose grid the library accepts: euler and rk4 "
                     "trajectories (linear models up to 8 steps, nonlinear 1-2 steps) compared with the exact-rational model whose "
                     "step bodies are translated from solvers.py; one Dormand-Prince step (new state, new derivative, error "
                     "estimate) of ode.runge_kutta_step compared with Model/Adaptive.v over the translated tableau; on the implementation the recurrences are re-derived from "
